@@ -168,7 +168,11 @@ class SymInt:
     def __class__(self):  # isinstance(x, int) True; isinstance(x, bool) False
         return int
 
-    def _cmp(self, o, f, default):
+    def _cmp(self, o, f, default, same):
+        if type(o) is SymInt:
+            if o is self or o.e.eq(self.e):
+                return same  # identical terms: decided without the solver
+            return SymBool(f(self.e, o.e))
         b = _zi(o)
         if b is None:
             if isinstance(o, SymReal):
@@ -177,22 +181,22 @@ class SymInt:
         return SymBool(f(self.e, b))
 
     def __lt__(self, o):
-        return self._cmp(o, lambda a, b: a < b, NotImplemented)
+        return self._cmp(o, lambda a, b: a < b, NotImplemented, False)
 
     def __le__(self, o):
-        return self._cmp(o, lambda a, b: a <= b, NotImplemented)
+        return self._cmp(o, lambda a, b: a <= b, NotImplemented, True)
 
     def __gt__(self, o):
-        return self._cmp(o, lambda a, b: a > b, NotImplemented)
+        return self._cmp(o, lambda a, b: a > b, NotImplemented, False)
 
     def __ge__(self, o):
-        return self._cmp(o, lambda a, b: a >= b, NotImplemented)
+        return self._cmp(o, lambda a, b: a >= b, NotImplemented, True)
 
     def __eq__(self, o):
-        return self._cmp(o, lambda a, b: a == b, False)
+        return self._cmp(o, lambda a, b: a == b, False, True)
 
     def __ne__(self, o):
-        return self._cmp(o, lambda a, b: a != b, True)
+        return self._cmp(o, lambda a, b: a != b, True, False)
 
     def __bool__(self):
         return CUR.decide(self.e != 0)
@@ -318,18 +322,27 @@ class Engine:
         return len(self.trace) < len(self.prefix)
 
     def decide(self, cond, both=False):
+        rid = cond.get_id()
+        hit = self.memo.get(rid)
+        if hit is not None:  # same condition decided earlier on this path
+            return hit[0]
+        raw = cond
         cond = z3.simplify(cond)
         if z3.is_true(cond):
+            self.memo[rid] = (True, raw)
             return True
         if z3.is_false(cond):
+            self.memo[rid] = (False, raw)
             return False
         cid = cond.get_id()
         hit = self.memo.get(cid)
-        if hit is not None:  # same condition decided earlier on this path
+        if hit is not None:
+            self.memo[rid] = (hit[0], raw)
             return hit[0]
         v = self._decide(cond, both)
-        # keep the AST alive so that its id stays unique for the rest of the path
+        # keep the ASTs alive so that their ids stay unique for the rest of the path
         self.memo[cid] = (v, cond)
+        self.memo[rid] = (v, raw)
         neg = z3.simplify(z3.Not(cond))
         self.memo[neg.get_id()] = (not v, neg)
         return v
